@@ -470,14 +470,17 @@ func shadowWD(p *c12Plan, what string, f func() string) string {
 	}
 	ch := make(chan string, 1)
 	go func() { ch <- f() }()
-	select {
-	case r := <-ch:
-		return r
-	case <-time.After(8 * time.Second):
-		p.hang = what
-		hungWorker = true
-		return "hang"
+	// 80 ticks of 100 ms (robust against a pause of the whole machine)
+	for tick := 0; tick < 80; tick++ {
+		select {
+		case r := <-ch:
+			return r
+		case <-time.After(100 * time.Millisecond):
+		}
 	}
+	p.hang = what
+	hungWorker = true
+	return "hang"
 }
 
 func execWriter(m *u.MapPollard, co c12Concrete, e *c12Exec) string {
